@@ -16,7 +16,7 @@ import (
 
 type c16Service struct {
 	c04Service
-	TLS string `json:"tls"` // "", static, static-noredirect, acme
+	TLS string `json:"tls"` // "", off-with-cert, static, static-noredirect, acme
 	Fwd bool   `json:"forward_headers"`
 }
 
@@ -41,11 +41,11 @@ func c16Gen(rng *rand.Rand, idx int) c16Scenario {
 		if rng.IntN(4) == 0 {
 			continue
 		}
-		s := c16Service{TLS: pick(rng, []string{"", "static", "static", "static-noredirect"})}
+		s := c16Service{TLS: pick(rng, []string{"", "off-with-cert", "static", "static", "static-noredirect"})}
 		s.Name = fmt.Sprintf("root%d", n)
 		s.Hosts, s.Prefixes, s.RawPfx = []string{h}, []string{"/"}, nil
 		if h == "" {
-			s.TLS = pick(rng, []string{"", "", "static"})
+			s.TLS = pick(rng, []string{"", "off-with-cert", "static"})
 		}
 		if h != "" && !strings.Contains(h, "*") && rng.IntN(8) == 0 {
 			s.TLS = "acme"
